@@ -40,6 +40,7 @@ XF = list(itertools.product(range(4), range(3), range(3)))      # (case, 8-bit, 
 KEY_PLUS_RAW = 'downenc-raw-txt-plus-mangle'
 KEY_FORCED_REJECT = 'forced-raw-8bit-reject-tiny-fragsize'
 KEY_FORCED_BROKEN = 'forced-downenc-broken-codec-small-fragsize'
+KEY_LUCKY = 'forced-downenc-lucky-tiny-probe'
 
 
 class Case:
@@ -178,6 +179,9 @@ def oracle(c, out):
                 if c.downenc == 82 and ty == 16 and c.a[1] == 2:
                     return (KEY_FORCED_REJECT, what)
                 if not survives(c.downenc, ty, c.a):
+                    # partial alteration (drops or random flips): a 3-4 byte probe can pass by luck
+                    if c.a[0] == 3 or c.a[1] == 2:
+                        return (KEY_LUCKY, what)
                     return (KEY_FORCED_BROKEN, what)
             return ('negotiated-settings-lose-packets', what)
         return None
@@ -191,10 +195,9 @@ def oracle(c, out):
 
 
 def comparable(c):
-    """(iii) applies: deterministic member whose downstream codec, if forced, is intact on the path
-    (otherwise the outcome depends on the server's random probe bytes)"""
-    if not c.deterministic():
-        return False
+    """(iii) applies: the downstream codec, if forced, is intact on the path (otherwise the outcome
+    depends on the server's random probe bytes).  Random-case members are predicted with the oracle
+    that flips every letter (a real test without a visible flip has probability < 2^-30)."""
     if plus_raw_member(c):
         return False
     ty = effective_type(c)
@@ -283,13 +286,14 @@ def gen_cases(seed, tier):
         lims = [0, 512]
     else:
         k = 0
+        nonull = MASKS_SERVED_FIRST[:-1]        # NULL (binary RDATA, untouched by the relay) not served: the answer side matters
         for q in XF:
             for a in XF:
-                for rep_ in range(2):
-                    add('auto-all-members', q=q, a=a, mask=MASKS[(k * 5 + rep_ * 7) % len(MASKS)],
-                        limit=LIMITS[(k + 2 * rep_ + (k // 4)) % 4], edns=(k + rep_) % 2)
-                    add('auto-all-members', q=q, a=a, mask=MASKS[(k * 3 + 4 + rep_ * 5) % len(MASKS)],
-                        limit=LIMITS[(k + 1 + 2 * rep_ + (k // 4)) % 4], edns=(k + rep_ + 1) % 2)
+                # 4 paths per pair of members: two without NULL, one with NULL, one from the whole list
+                add('auto-all-members', q=q, a=a, mask=nonull[k % 6], limit=LIMITS[(k + k // 4) % 4], edns=k % 2)
+                add('auto-all-members', q=q, a=a, mask=nonull[(k // 6 + 3) % 6], limit=LIMITS[(k + 2 + k // 4) % 4], edns=(k + 1) % 2)
+                add('auto-all-members', q=q, a=a, mask=MASKS_PREFERRED_FIRST[k % 7], limit=LIMITS[(k + 1 + k // 4) % 4], edns=(k // 2) % 2)
+                add('auto-all-members', q=q, a=a, mask=MASKS[(k * 5 + 2) % len(MASKS)], limit=LIMITS[(k + 3 + k // 4) % 4], edns=(k // 3) % 2)
                 k += 1
         # every mask x limit x edns on a few members
         for x in (ident, (1, 1, 1), (2, 2, 2), (0, 2, 1), (3, 1, 2)):
@@ -392,7 +396,13 @@ def check(rep):
     impl = None
     if 'hs' in ctx.exe:
         t0 = time.time()
-        rc, impl, err = run_pool(ctx.exe['hs'], lines, ctx.work, 'impl', chunk=60)
+        # corpus cases (witnesses of the listed findings, whose outcome depends on the server's rand()
+        # sequence) each run in a fresh process; the generated cases in chunks
+        ncorp = sum(1 for c in cases if c.block == 'corpus')
+        rc0, impl0, err0 = run_pool(ctx.exe['hs'], lines[:ncorp], ctx.work, 'corpus', chunk=1) if ncorp else (0, [], '')
+        rc, impl, err = run_pool(ctx.exe['hs'], lines[ncorp:], ctx.work, 'impl', chunk=60)
+        impl = impl0 + impl
+        rc, err = (rc0 or rc), (err0 + err)
         rep.cov['impl_wall_s'] = round(time.time() - t0, 2)
         if rc != 0:
             bad = next((l for l, o in zip(lines, impl) if o == '<NO-OUTPUT>'), None)
